@@ -107,8 +107,11 @@ def build(rng, name, opts=None):
     feats = ["imports:" + st["name"]]
     L = []
     force = set(opts.get("force") or ())
+    forbid = set(opts.get("forbid") or ())
 
     def chance(p, tag):
+        if tag in forbid:
+            return False
         return tag in force or rng.random() < p
 
     if rng.random() < 0.6:
